@@ -281,6 +281,11 @@ def run(ctx):
         bs = [("t", "i", "a.i"), ("tI", "i", "a.i + 1")] if any(o == "tI" for o, _, _ in hs) else []
         docs.append((cxx.document(bs, hs, ex2), [("handler", h, src, None) for _, h, src in hs], [("root", "VObj")] + cxx.OBJECT_DECLS + ex2))
         ctx.dist("colliding-callback-names")
+    # console.* takes operands of any type: whatever is accepted has to be something C++ can send to the stream (an empty list literal has no type: F27, repaired)
+    for k, arg in enumerate(["[]", "null", "[], null", "[1, 2]", "a", "a.names", "VObj.ModeA", "\"s\"", "1.5", "a.next", "[a.s, \"x\"]", "a.nums", "true ? [] : []", "[[]]"]):
+        hsrc = "console.%s(%s)" % (["log", "warn", "info", "debug", "error"][k % 5], arg)
+        docs.append((cxx.document([], [("a", "onFired", hsrc)]), [("handler", "onFired", hsrc, None)], [("root", "VObj")] + cxx.OBJECT_DECLS))
+        ctx.dist("console-operands")
     res2 = qml.run_docs(vh, [d for d, _, _ in docs])
     work = os.path.join(C.BUILD, "c16")
     shutil.rmtree(work, ignore_errors=True)
